@@ -9,7 +9,7 @@
  * allocator encoding (symbolic sizes, per-size split, constant capacity), SAT or z3.  With a
  * fully concrete text symbolic execution folds and a whole parse costs milliseconds.  So every
  * query here is an EXHAUSTIVE CASE SPLIT: the only symbolic input is the selector vfin.sel in
- * [VF_LO, VF_HI); branch `sel == idx` decodes idx (mixed radix) into one concrete member of a
+ * [VF_LO, VF_HI) (or the list VF_LIST); branch `sel == idx` decodes idx (mixed radix) into one concrete member of a
  * finite input family, runs the real parser on it in an exactly sized heap buffer and checks the
  * result.  The solver sees all members of the batch at once; a failing assertion's trace names
  * the member (vfin.sel) and the native replay runs exactly that member.  Families (and their
@@ -20,8 +20,13 @@
  *   qgetenv                     one environment variable (name, value, set/unset) per member
  *   qsyscmd                     one command output (or failure) per member
  *   qhashmurmur3_32             sum of bytes (the list table only stores/compares it)
- * libc models (solver build only): strstr, sprintf, snprintf, vsnprintf (%s %c only), byte-loop
- * memcpy/memmove.
+ *   (a getenv()/command result with one symbolic byte on a concrete line: no verdict in 300 s either)
+ * libc models (solver build only): strstr, sprintf("%c%s"), snprintf, vsnprintf (%s only), byte-loop
+ * memcpy/memmove, strlen/strcmp/strncmp/strcpy/strncpy with per-byte accessibility tests (damage
+ * containment, see there).  Scaled knobs (solver build): PATH_MAX 64; -D_VAR_MAX_EXPANSIONS / -D_INCLUDE_MAX
+ * are honoured by a bounded _parsestr() / include splice (proposed patches) and ignored by unbounded ones.
+ * Termination = unwinding assertions: per family a tight global --unwind (longest text + slack), the ${}
+ * expansion loop (_parsestr.2) and the include splice loop (qconfig_parse_file.1) get their own bounds.
  *
  * VF_MODE 1  C17 raw: qconfig_parse_str on every string of length VF_N over alphabet VF_ALPHA
  * VF_MODE 2  C17 raw include: qconfig_parse_file, main = pre + "@INCLUDE " + name + post,
@@ -29,6 +34,7 @@
  * VF_MODE 3  C17 templates for the ${} expansion loop (VF_L lines of kind VF_K0..VF_K2)
  * VF_MODE 4  C20 print -> parse: structured document of VF_L lines of kind VF_K0..VF_K2
  * VF_MODE 5  C20 qconfig_parse_file: [line A] @INCLUDE name [line B], include file = [line C]
+ * VF_MODE 6  C17 include cycle: the included file includes itself
  * -DVF_LEDGER adds the allocation-ledger assertion (tag C11.ini.leak) to any mode.
  */
 #include "vf.h"
@@ -81,7 +87,7 @@
 #define T_ENV 3     /* n=${%e}  */
 #define T_CMD 4     /* n=${!c}  */
 
-#if VF_MODE >= 4
+#if VF_MODE == 4 || VF_MODE == 5
 #define HP "C20."
 #else
 #define HP "C17."
@@ -448,7 +454,7 @@ static const char *const vf_secs[] = {"a", "b", "ab", "a.b"};
 static const char *const vf_kvvals[] = {"x", "", "xy", "a=b", "#x", "x y", "$", "{x}", "[x]", "x#", "$x", "}{", ";x", "x\ty"};
 #define N_KVVALS PICK4(2, 2, 4, 14)
 static const char *const vf_refs[] = {"a", "b", "a.a", "a.", "b.a", "ab", "b.", "a.b", "c", "ab.a", "a.ab", "b.b"};
-#define N_REFS PICK4(4, 4, 8, 12)
+#define N_REFS PICK4(4, 4, 6, 12)
 static const char vf_pres[] = {0, 'x', '}', '='};
 #define N_PRES PICK4(1, 1, 2, 4)
 static const char *const vf_comments[] = {"x", "", "a=b", "${a}", "[a]", "#", " x", "a=${a}"};
@@ -782,6 +788,31 @@ static void run_member(void) {
     if (t != NULL) qlisttbl_free(t);
     LEDGER_CHECK();
     VF_COVER("checked");
+}
+#elif VF_MODE == 6
+/* include cycle: main file "f" = "@INCLUDE i\n", the include file names itself again */
+static const char *const vf_cyc[] = {"@INCLUDE i", "@INCLUDE i\n", "a=b\n@INCLUDE i\n"};
+static unsigned family_total(void) { return NELEM(vf_cyc); }
+static void run_member(void) {
+    vf_out = vf_main_txt;
+    vf_tp = 0;
+    emits("@INCLUDE i\n");
+    vf_main_txt[vf_tp] = 0;
+    vf_main_len = vf_tp;
+    vf_out = vf_inc_txt;
+    vf_tp = 0;
+    emits(vf_cyc[dig(NELEM(vf_cyc))]);
+    vf_inc_txt[vf_tp] = 0;
+    vf_inc_len = vf_tp;
+    vf_inc_present = 1;
+    vf_inc_path = "./i";
+    vf_env_val = NULL; vf_cmd_out = NULL;
+    LEDGER_BASE();
+    qlisttbl_t *t = qconfig_parse_file(NULL, VF_MAINPATH, '=');
+    /* terminating is the claim (unwinding assertions); either outcome - a table or NULL - is a report */
+    if (t != NULL) { vf_check_table_shape(t, 40); qlisttbl_free(t); VF_COVER("delivered"); }
+    else VF_COVER("rejected");
+    LEDGER_CHECK();
 }
 #else
 #error "unknown VF_MODE"
